@@ -253,6 +253,29 @@ def main():
         batches = cfg["batches"](tier)
     col = cfg.get("oracle_col", pid)
     acol = cfg.get("agree_col", "a" + pid)
+
+    def subdict(v):
+        d = {}
+        for kv in (v or "").split(","):
+            if ":" in kv:
+                k, x = kv.split(":", 1)
+                d[k] = x
+        return d
+
+    def oracle_of(r):
+        """'1' / '0' / 'na' — the property predicate on the implementation's observation"""
+        if "need" in cfg:
+            if r.get("intent") != "1":
+                return "na"
+            sub = subdict(r.get("sub"))
+            return "1" if all(sub.get(k) == "1" for k in cfg["need"]) else "0"
+        return r.get(col, "na")
+
+    def agree_of(r):
+        if "agr_need" in cfg:
+            a = subdict(r.get("agr"))
+            return "1" if all(a.get(k) == "1" for k in cfg["agr_need"]) else "0"
+        return r.get(acol, r.get("agree", "0"))
     total = agree = disagree = holds_true = holds_false = na = skipped = raw_disagree = 0
     tags_hist = {}
     samples = []
@@ -268,7 +291,8 @@ def main():
                 total += 1
                 if r.get("skip") == "1":
                     skipped += 1
-                a = r.get(acol, r.get("agree", "0"))
+                a = agree_of(r)
+                r["_oracle"] = oracle_of(r)
                 if r.get("agree") == "0":
                     raw_disagree += 1
                 if a == "1":
@@ -276,7 +300,7 @@ def main():
                 elif a == "0":
                     disagree += 1
                     disagreeing.append((case_line, r))
-                h = r.get(col, "na")
+                h = r["_oracle"]
                 if h == "1":
                     holds_true += 1
                     distinct.add(r.get("tags", "") + "|" + str(len(case_line) // 64))
@@ -298,7 +322,7 @@ def main():
     def write_replay(name, case_line, r, why):
         path = os.path.join(BUILD, "replay", name)
         with open(path, "w") as f:
-            f.write("# property %s — %s\n# driver verdict: %s\n" % (pid, why, " ".join("%s=%s" % kv for kv in r.items() if kv[0] != "tags")))
+            f.write("# property %s — %s\n# driver verdict: %s\n" % (pid, why, " ".join("%s=%s" % kv for kv in r.items() if kv[0] not in ("tags", "_oracle"))))
             f.write("# tags: %s\n# seed=%d tier=%s\n" % (r.get("tags", ""), seed, tier))
             f.write(case_line + "\n")
         return os.path.relpath(path, ROOT)
@@ -333,7 +357,7 @@ def main():
             for b in cfg["batches"]("thorough"):
                 rows, _ = run_batch(pid, b, seed + 1, "thorough")
                 for case_line, r in rows:
-                    if r.get(col) == "0" and not any(matches_finding(f, r, case_line) for f in known):
+                    if oracle_of(r) == "0" and not any(matches_finding(f, r, case_line) for f in known):
                         found = (case_line, r)
                         break
                 if found:
